@@ -17,33 +17,23 @@ import UVerif.Spec.ConvPosInt
 namespace UVerif.Driver
 open UVerif UVerif.Limbs UVerif.Posit
 
-/-! ### known-finding classes: predicates on the INPUTS (configuration and exact source value) -/
+/-! ### known-finding classes: predicates on the INPUTS (configuration and exact source value)
+
+None is left: the two consequences of the multi-block `uint64_t` carry defect of `integer::operator+=` disappeared with its
+repair; no region of the adapters has a class, a spec failure anywhere is a VIOLATION. -/
 
 /-- posit → integer -/
 def p2iClass (w ibits n es p : Nat) : String :=
   match positVal n es p with
   | none => ""
   | some x =>
-    if n == 2 && x == 0 then "adapter.p2i.nbits2_zero_gives_one"
-    else
-      let ax := if x < 0 then -x else x
-      if ax < 1 then ""
-      else if ax < 2 then (if x < 0 then "adapter.p2i.negative_scale0" else "")
-      else
-        let sc := floorLog2 ax
-        let fb : Int := fbitsOf n es
-        if sc < fb && (ibits : Int) ≤ fb + 1 then "adapter.p2i.narrow_integer_right_shift"
-        else if w == 64 && ibits > 64 && x < 0 && (truncZ ax).toNat % 2 ^ 64 == 0 then "adapter.p2i.u64_multiblock_negate"
-        else ""
+    let _ := (w, ibits, x)
+    ""
 
-/-- integer → posit (`u` = unsigned number type, `x` = the exact source value) -/
-def i2pClassK (u : Bool) (w ibits n : Nat) (x : Int) : String :=
-  if !u && w == 64 && ibits > 64 then "adapter.i2p.u64_multiblock_hang"
-  else if x.natAbs ≥ 2 ^ (n + 1) then "adapter.i2p.msb_gt_nbits_throws"
-  else if u && x > (2 ^ (ibits - 1) : Nat) then "adapter.i2p.unsigned_topbit_scale"
-  else ""
-
-def i2pClass (w ibits n : Nat) (x : Int) : String := i2pClassK false w ibits n x
+/-- integer → posit (`u` = unsigned number type) -/
+def i2pClassK (u : Bool) (w ibits : Nat) : String :=
+  let _ := (u, w, ibits)
+  ""
 
 private def orCls' (a b : String) : String := if a.isEmpty then b else a
 
@@ -100,7 +90,7 @@ def convpiHandler : Handler := fun lhs rhs => do
     let a := v % 2 ^ ibits
     let m := ConvPosInt.i2pK u w ibits n es (ofNat w k a)
     let x := ConvPosIntSpec.intValK u ibits a
-    let cls := i2pClassK u w ibits n x
+    let cls := i2pClassK u w ibits
     match r with
     | .enc e =>
       let ok := ConvPosIntSpec.i2pOkK u ibits n es a e
@@ -119,10 +109,8 @@ def convpiHandler : Handler := fun lhs rhs => do
     let ok := match back with
       | .enc b => ConvPosIntSpec.rtpOkK u n es ibits v iv b
       | _ => !rep
-    -- class: the forward leg's, else the class of the back leg on the integer the property demands
-    let c2 := match ConvPosIntSpec.p2iExpect n es ibits v with
-      | some e => i2pClassK u w ibits n (ConvPosIntSpec.intValK u ibits e)
-      | none => ""
+    -- class: the forward leg's, else the class of the back leg
+    let c2 := i2pClassK u w ibits
     return { model := s!"{hexL mv} {mb.show}", specOk := ok,
              reason := if ok then "" else "the posit's value is an integer that fits, but posit -> integer -> posit is not the identity",
              cls := orCls' (p2iClass w ibits n es v) c2,
@@ -141,7 +129,7 @@ def convpiHandler : Handler := fun lhs rhs => do
       | _, _ => !rep
     return { model := s!"{mr.show} {ms}", specOk := ok,
              reason := if ok then "" else "the integer is a value of the posit, but integer -> posit -> integer is not the identity",
-             cls := orCls' (i2pClassK u w ibits n x) (p2iClass w ibits n es expectP),
+             cls := orCls' (i2pClassK u w ibits) (p2iClass w ibits n es expectP),
              tag := if rep then "rti/representable" else "rti/not-representable", trivial := x == 0 }
   | _, _ => throw "arity"
 
